@@ -308,6 +308,74 @@ impl Filter {
 //@ end
 }
 
+// ---- front-end equivalence, DLF and JSON (the property's second sentence for these two) ----
+// A JSON document that says what a dlt-viewer filter element says: the kind, the enabled flag, each enabled id criterion with its
+// literal/regex decision spelled out, an enabled payload text as "payload" or - regexp flag set - "payloadRegex" with the ignore-case
+// flag, enabled log-level bounds (0..=6), "mstp":3 for "control messages only"; nothing else.
+pub open spec fn dlf_id_json(j: &VxJson, a: &VxAttrs, enable: Seq<char>, key: Seq<char>, rx: Option<Seq<char>>, jkey: Seq<char>, jflag: Seq<char>) -> bool {
+    if flag(a, enable) && a.a(key) is Some {
+        let s = a.a(key)->Some_0;
+        let is_rx = match rx { None => false, Some(k) => match a.a(k) { Some(v) => v == "1"@, None => has_rx_chars(s) } };
+        j.s(jkey) == Some(s) && j.b(jflag) == Some(is_rx)
+    } else { j.s(jkey) is None }
+}
+pub open spec fn json_says_dlf(j: &VxJson, a: &VxAttrs) -> bool {
+    let ic = flag(a, "enablepayloadtext"@) && flag(a, "ignoreCase_Payload"@);
+    let has_text = flag(a, "enablepayloadtext"@) && a.a("payloadtext"@) is Some;
+    &&& j.u("type"@) == Some(match a.a("type"@) { Some(s) => match parse_u8(s) { Some(1u8) => 1u64, Some(2u8) => 2u64, Some(3u8) => 3u64, _ => 0u64 }, None => 0u64 })
+    &&& j.b("enabled"@) == Some(flag(a, "enablefilter"@)) && j.b("not"@) is None && j.b("atLoadTime"@) is None && j.u32s("lifecycles"@) is None
+    &&& dlf_id_json(j, a, "enableecuid"@, "ecuid"@, None, "ecu"@, "ecuIsRegex"@)
+    &&& dlf_id_json(j, a, "enableapplicationid"@, "applicationid"@, Some("enableregexp_Appid"@), "apid"@, "apidIsRegex"@)
+    &&& dlf_id_json(j, a, "enablecontextid"@, "contextid"@, Some("enableregexp_Context"@), "ctid"@, "ctidIsRegex"@)
+    &&& j.b("ignoreCasePayload"@) == Some(ic)
+    &&& j.s("payloadRegex"@) == (if has_text && flag(a, "enableregexp_Payload"@) { a.a("payloadtext"@) } else { None::<Seq<char>> })
+    &&& j.s("payload"@) == (if has_text && !flag(a, "enableregexp_Payload"@) { a.a("payloadtext"@) } else { None::<Seq<char>> })
+    &&& j.u("logLevelMin"@) == (match dlf_level(a, "enableLogLevelMin"@, "logLevelMin"@) { Some(l) => Some(l as u64), None => None::<u64> })
+    &&& j.u("logLevelMax"@) == (match dlf_level(a, "enableLogLevelMax"@, "logLevelMax"@) { Some(l) => Some(l as u64), None => None::<u64> })
+    &&& j.u("verb_mstp_mtin"@) is None && j.u("mstp"@) == (if flag(a, "enablecontrolmsgs"@) { Some(3u64) } else { None::<u64> })
+}
+pub proof fn lemma_same_opt_id(c1: Option<Char4OrRegex>, c2: Option<Char4OrRegex>, s: Seq<char>, rx: bool, id: Seq<u8>)
+    requires c1 is Some, c2 is Some, c4r_is(c1->Some_0, s, rx), c4r_is(c2->Some_0, s, rx),
+    ensures id_ok(c1, id) == id_ok(c2, id),
+{
+    lemma_same_id_crit(c1->Some_0, c2->Some_0, s, rx, id);
+}
+// Both front-ends accepted their input (every id criterion and payload matcher compiled): the two filters decide every message alike.
+pub proof fn theorem_dlf_json_same_decision(fd: &Filter, a: &VxAttrs, fj: &Filter, j: &VxJson, m: &DltMessage)
+    requires
+        filter_is_dlf(fd, a), filter_is_json(fj, j), json_says_dlf(j, a), built_ok(fd), built_ok(fj),
+        // the DLF reader drops an id criterion or payload expression that does not compile; the JSON reader refuses the document: the
+        // theorem is about inputs both accept
+        (flag(a, "enableecuid"@) && a.a("ecuid"@) is Some ==> fd.ecu is Some),
+        (flag(a, "enableapplicationid"@) && a.a("applicationid"@) is Some ==> fd.apid is Some),
+        (flag(a, "enablecontextid"@) && a.a("contextid"@) is Some ==> fd.ctid is Some),
+        (flag(a, "enablepayloadtext"@) && a.a("payloadtext"@) is Some && flag(a, "enableregexp_Payload"@) ==> fd.payload_regex is Some),
+    ensures spec_matches(fd, m) == spec_matches(fj, m), // O:frontends.dlf_json (the same abstract filter decides identically whether loaded from a dlt-viewer DLF file or from JSON)
+{
+    let ext_a: Seq<u8> = if m.extended_header is Some { m.extended_header->Some_0.apid.char4@ } else { Seq::empty() };
+    let ext_c: Seq<u8> = if m.extended_header is Some { m.extended_header->Some_0.ctid.char4@ } else { Seq::empty() };
+    if flag(a, "enableecuid"@) && a.a("ecuid"@) is Some { lemma_same_opt_id(fd.ecu, fj.ecu, a.a("ecuid"@)->Some_0, false, m.ecu.char4@); }
+    if flag(a, "enableapplicationid"@) && a.a("applicationid"@) is Some {
+        let s = a.a("applicationid"@)->Some_0;
+        let rx = match a.a("enableregexp_Appid"@) { Some(v) => v == "1"@, None => has_rx_chars(s) };
+        lemma_same_opt_id(fd.apid, fj.apid, s, rx, ext_a);
+    }
+    if flag(a, "enablecontextid"@) && a.a("contextid"@) is Some {
+        let s = a.a("contextid"@)->Some_0;
+        let rx = match a.a("enableregexp_Context"@) { Some(v) => v == "1"@, None => has_rx_chars(s) };
+        lemma_same_opt_id(fd.ctid, fj.ctid, s, rx, ext_c);
+    }
+    if spec_payload_text(m) is Ok {
+        let t = &spec_payload_text(m)->Ok_0;
+        if fd.payload_regex is Some && fj.payload_regex is Some { axiom_fancy_by_pattern(&fd.payload_regex->Some_0, &fj.payload_regex->Some_0, t); }
+        if fd.payload_as_regex is Some && fj.payload_as_regex is Some { axiom_sre_by_literal(&fd.payload_as_regex->Some_0, &fj.payload_as_regex->Some_0, t); }
+        if fd.payload is Some && fj.payload is Some { axiom_contains_by_text(&fd.payload->Some_0, &fj.payload->Some_0, t); }
+    }
+    assert((((3u64 & 0x07) << 1) as u8) == (0x03u8 << 1)) by(bit_vector);
+    assert(fd.verb_mstp_mtin == fj.verb_mstp_mtin);
+    assert(fd.loglevel_min == fj.loglevel_min && fd.loglevel_max == fj.loglevel_max);
+}
+
 // ---- JSON serialisation (Serialize for Filter, used by Filter::to_json) and the round trip ----
 // serde's Serializer / SerializeStruct (R12): serialize_struct opens an object, serialize_field(key, value) adds the member `key` with
 // the JSON image of the value, end() closes it. ASSUMED: that is what serde_json does for these value types (u8, bool, &str / String as
